@@ -43,6 +43,8 @@ type SimCfg struct {
 	MaxSteps   int64
 	Background bool // real Flusher + HintDumper loops run as tasks
 	DumperSecs int
+	GCWeb      bool // GC requests go through the admin HTTP handler (gobeansdb/web.go)
+	StallDen   int  // stalled-thread fault: a client / GC task is stalled at a function entry with probability 1/StallDen (0 = off)
 }
 
 func (c *SimCfg) depth() int {
@@ -133,6 +135,8 @@ func genCfg(r *Rng, small bool) SimCfg {
 	}
 	c.Background = r.Bool(3, 4)
 	c.DumperSecs = r.Pick(1, 10, 60)
+	c.GCWeb = r.Bool(1, 3)
+	c.StallDen = r.Pick(0, 0, 40, 150, 600)
 	c.normalize()
 	return c
 }
